@@ -46,7 +46,7 @@ func ParseR(x Sx) *R {
 		return &R{Op: op, S: []string{str(0), str(1)}, I: []int64{num(2)}, Strs: strs(3)}
 	case "wrap", "withmessage", "hint", "detail", "domain", "handledmsg", "handledindomain", "pkgmsg", "syscallerror":
 		return &R{Op: op, Kids: []*R{kid(0)}, S: []string{str(1)}}
-	case "wrapf", "withmessagef", "safedetails", "handledmsgf", "newassertwrapped":
+	case "wrapf", "withmessagef", "safedetails", "handledmsgf", "newassertwrapped", "hintf", "detailf":
 		return &R{Op: op, Kids: []*R{kid(0)}, Fmt: parseFmt(a[1])}
 	case "withstack", "assert", "handled", "handleassert", "pkgstack":
 		return &R{Op: op, Kids: []*R{kid(0)}}
